@@ -11,12 +11,6 @@ pub struct Tok {
     pub r: i64,
 }
 
-impl Tok {
-    pub fn new(k: &str, n: i64, s: &str) -> Tok {
-        Tok { k: k.into(), n, s: s.into(), w: 0, r: 0 }
-    }
-}
-
 #[derive(Clone, Debug)]
 pub struct Node {
     pub k: String,
@@ -73,9 +67,6 @@ impl Node {
     }
     pub fn any(&self, f: &dyn Fn(&Node) -> bool) -> bool {
         f(self) || self.c.iter().any(|c| c.any(f))
-    }
-    pub fn size(&self) -> usize {
-        1 + self.c.iter().map(|c| c.size()).sum::<usize>()
     }
     /// The top-level lines (Lines in Semantics.tla).
     pub fn lines(&self) -> Vec<&Node> {
